@@ -80,8 +80,45 @@ RemoveOps(QS, MS) == {[op |-> "remove", q |-> q, m |-> m] : q \in QS, m \in MS}
 UpdateOps(QS, MS, US) == {[op |-> "update", q |-> q, m |-> m, u |-> u, fail |-> 0] : q \in QS, m \in MS, u \in US}
 CountOps(QS, MS) == {[op |-> "count", q |-> q, m |-> m] : q \in QS, m \in MS}
 
+(***************************************************************************)
+(* C14: the matrix of wrongly typed values.  kind "x0" is the falsy value  *)
+(* of type x (0, 0.0, False, b"", [], {}, ""); the harness owns the        *)
+(* concrete values, the specification owns which cells exist.              *)
+(***************************************************************************)
+BadKinds == {"int", "int0", "float", "float0", "bool", "bool0", "bytes", "bytes0", "none",
+             "list", "list0", "dict", "dict0", "str", "str0"}
+TruthyKinds == {"int", "float", "bool", "bytes", "list", "dict", "str"}
+Slots == {"time", "measurement", "tagkey", "tagvalue", "fieldkey", "fieldvalue"}
+WrongFor(slot) ==
+  CASE slot = "time" -> BadKinds
+    [] slot = "measurement" -> BadKinds \ {"str", "str0"}
+    [] slot \in {"tagkey", "fieldkey"} -> {"int", "int0", "float", "float0", "bool", "bool0", "bytes", "bytes0", "none"}
+    [] slot = "tagvalue" -> BadKinds \ {"str", "str0", "none"}
+    [] slot = "fieldvalue" -> {"bool", "bool0", "bytes", "bytes0", "list", "list0", "dict", "dict0", "str", "str0"}
+StaticEntries   == {"update_static", "update_all_static", "handle_update_static"}
+CallableEntries == {"update_callable", "update_all_callable", "handle_update_callable"}
+KindsFor(entry, slot) ==
+  CASE entry \in {"ctor", "setter"} -> WrongFor(slot)
+    [] entry = "insert_meas" -> IF slot = "measurement" THEN WrongFor(slot) \cap TruthyKinds ELSE {}
+    [] entry \in StaticEntries ->           \* a falsy static time / measurement means "argument absent"
+         IF slot \in {"time", "measurement"} THEN WrongFor(slot) \cap TruthyKinds ELSE WrongFor(slot)
+    [] entry \in CallableEntries -> WrongFor(slot)
+BadOps ==
+  {[op |-> "bad", entry |-> e, slot |-> sl, kind |-> k,
+    q |-> Me("noop", 0), m |-> IF e \in {"handle_update_static", "handle_update_callable"} THEN 1 ELSE N,
+    needsel |-> IF e \in CallableEntries THEN 1 ELSE 0] :
+     e \in {"ctor", "setter", "insert_meas"} \cup StaticEntries \cup CallableEntries, sl \in Slots, k \in BadKinds}
+
+BadCells == {b \in BadOps : b.kind \in KindsFor(b.entry, b.slot)}
+BadDone == \E i \in 1..Len(hist) : hist[i].op = "bad"
+
 Alphabet ==
-  CASE Alpha = "mc" ->       \* everything that changes the abstract state, broad vocabulary
+  CASE Alpha = "bad" ->       \* [inserts]* ; one bad call ; all() ; count()
+         IF ~ BadDone THEN (IF Len(hist) < 2 THEN InsertOps({P1, P3}, {N}) ELSE {}) \cup BadCells
+         ELSE CASE hist[Len(hist)].op = "bad" -> {[op |-> "all", m |-> N, sorted |-> 0]}
+                [] hist[Len(hist)].op = "all" -> CountOps({T("noop", 0)}, {N})
+                [] OTHER -> {}
+    [] Alpha = "mc" ->       \* everything that changes the abstract state, broad vocabulary
          InsertOps(Points, {N}) \cup InsertOps({P1, P4}, {2})
          \cup {[op |-> "insert_multiple", ps |-> ps, m |-> N, bad |-> b] : ps \in {<<P1, P2>>, <<P2, P4>>, <<P5, P3>>}, b \in {0, 1}}
          \cup RemoveOps(Queries, MF)
@@ -129,7 +166,7 @@ ValueBound == \A i \in 1..Len(store) :
    /\ store[i].t <= 5 /\ store[i].m <= 4
    /\ \A k \in DOMAIN store[i].tg : store[i].tg[k] <= 3
    /\ \A k \in DOMAIN store[i].fd : store[i].fd[k] <= 3
-EmitPaths == (Mode = "paths" /\ Len(hist) = Depth) => PrintT(<<"PATH", ToJson(hist)>>)
+EmitPaths == (Mode = "paths" /\ hist # <<>> /\ (Len(hist) = Depth \/ Alphabet = {})) => PrintT(<<"PATH", ToJson(hist)>>)
 
 (***************************************************************************)
 (* Properties of the design (Mode "check").                                *)
